@@ -406,8 +406,9 @@ pub fn c12<T: Full>(g: &mut Gen, b: &Budget, out: &mut Sink) {
             if cap >= len {
                 out.oracle("C12", st == "ok" && written == &full[..] && room == cap - len, &case, &st);
             } else {
-                out.oracle("C12", st.starts_with("err writeZero") && full.starts_with(written), &case,
-                           &format!("{} written={}", st, hex(written)));
+                // the buffer ran out after exactly `cap` bytes: those are the first `cap` bytes
+                out.oracle("C12", st.starts_with("err writeZero") && written == &full[..cap] && room == 0, &case,
+                           &format!("{} written={} room={} (want the first {} bytes)", st, hex(written), room, cap));
             }
         }
     }
